@@ -495,4 +495,14 @@ theorem dense_isChain (s : SLayout) (hpos : SPos s)
   · simpa using (vals_perm hperm).trans hd
   · simpa using sortDesc_sorted (tagAll s)
 
+/-! ### tiles of a global (`ApplyLayoutCastSubviewGlobal`) -/
+
+/-- With one more, outermost, stride `⟨cur, rem⟩` for the tiles, element `i` of tile `q` of a dimension sits at
+`cur * q` plus its address inside the tile. -/
+theorem outerTile_addrDim (cur rem : Nat) (t : List SStride) (ht : ∀ x ∈ t, 0 < x.bound) (q i : Nat)
+    (hi : i < prodB t) : addrDim (⟨cur, rem⟩ :: t) (prodB t * q + i) = cur * q + addrDim t i := by
+  have hP := prodB_pos t ht
+  show cur * ((prodB t * q + i) / prodB t) + addrIn t (prodB t * q + i) = cur * q + addrDim t i
+  rw [addrIn_mul_add, Nat.mul_add_div hP, Nat.div_eq_of_lt hi, Nat.add_zero, addrDim_eq_addrIn t i hi]
+
 end SnaxVerif.Casts
